@@ -117,6 +117,18 @@ def patch_location(root):
     return None if el is None else (el.get("ttl"), (el.text or "").strip())
 
 
+def doc_line(root):
+    """encoding of the patchable parts of an MPD for the driver's `patchapply` channel"""
+    import segwalk
+    hx = lambda t: (t.encode().hex() or "-")
+    pub = segwalk.parse_datetime_us(root.get("publishTime"))
+    loc = patch_location(root)
+    tls = []
+    for key, nodes in sorted(timelines_of(root).items(), key=lambda kv: str(kv[0])):
+        tls.append(hx(str(key)) + "~" + ",".join(f"{'-' if t is None else t}:{d}:{int(r or 0) + 1}" for t, d, r in nodes))
+    return f"{hx(root.get('id') or '')}|{pub}|{hx(' '.join(loc) if loc else '')}|{'#'.join(tls) or '-'}"
+
+
 def gen_pairs(ctx, rng, count):
     out = []
     templates = ["hand_made.mpd", "manifest_a.mpd", "manifest_n.mpd", "hand_made.mpd"]
@@ -197,6 +209,7 @@ def ch_pair(ctx) -> Channel:
     client = app.client()
     rng = ctx.rng("manifest_pair")
     lines, recs = [], []
+    plines, precs = [], []
     with appboot.Clock("2023-01-01T00:00:00Z") as clock:
         for stream, url, t1, t2, kind, opts, defaults in gen_pairs(ctx, rng, ctx.scale(48, 400)):
             ch.evaluations += 1
@@ -274,6 +287,14 @@ def ch_pair(ctx) -> Channel:
                             fail = f"originalPublishTime {proot.get('originalPublishTime')} vs {root1.get('publishTime')}"
                         elif proot.get("mpdId") != root1.get("id"):
                             fail = f"mpdId {proot.get('mpdId')} vs {root1.get('id')}"
+                        # correspondence with the Lean patch model: the real patch applied to doc1 must be
+                        # what the model's servePatch(doc2, publishSeconds doc1) applied to doc1 gives
+                        plines.append(f"patchapply {doc_line(root1)} {doc_line(root2)}")
+                        import segwalk as _sw
+                        impl_p = (f"{doc_line(patched).split('|', 1)[1].replace('|', ' ')} "
+                                  f"{_sw.parse_datetime_us(proot.get('originalPublishTime'))} "
+                                  f"{(proot.get('mpdId') or '').encode().hex() or '-'}")
+                        precs.append((case, impl_p))
                         if fail:
                             ch.oracle_failures.append({**case, "kind": "patch-not-equivalent", "what": fail,
                                                        "patch_url": loc[1], "ast_changed": not same_ast})
@@ -286,6 +307,10 @@ def ch_pair(ctx) -> Channel:
             ch.sample(case, limit=3)
     for st_ in ("bbb", "tears", "syn1", "syn2", "syn3"):
         set_stream_defaults(app, st_, None)
+    for (case, impl_p), mo in zip(precs, _driver(ch, plines)):
+        ch.count("patch_model_compared")
+        if mo is not None and mo != impl_p and not (case.get("delta") == "rollover"):
+            ch.disagreements.append({**case, "channel": "patchapply", "model": mo[:300], "impl": impl_p[:300]})
     model = _driver(ch, lines)
     for (case, rep_id, impl), mo, line in zip(recs, model, lines):
         if mo is not None and mo != impl:
